@@ -23,7 +23,7 @@ pub fn def() -> PropDef {
     gen,
     check,
     panic_policy: PanicPolicy::Count,
-    rule: "random ASCII trees over {Raw*, Original, Concat, Replace, Cached (not beneath a ReplaceSource), Boxed}, file-name pool with one fixed content per name, all replacement classes; ground truth = byte provenance computed from the spec by the concat/splice models; clauses a-f of DESIGN C04 are evaluated on the independently decoded map(); non-trivial = >= 1 surviving original character, >= 1 raw character and a composite; distinct = spec fingerprint",
+    rule: "random ASCII trees over {Raw*, Original, Concat, Replace, Cached (not beneath a ReplaceSource), Boxed}, file-name pool with one fixed content per name, all replacement classes; ground truth = byte provenance computed from the spec by the concat/splice models; clauses a-f of DESIGN C04 are evaluated on the independently decoded map(); non-trivial = >= 1 surviving original character, >= 1 raw character and a composite; trees repeat an earlier sibling now and then and, in every second case, equal Cached nodes of the tree under test are one shared instance / clones sharing one cache; the object is used before the checked call by a random prelude of 0-3 observer calls; distinct = spec fingerprint",
     cases: |t| match t {
       Tier::Quick => 150_000,
       Tier::Thorough => 2_000_000,
